@@ -596,6 +596,28 @@ func c02Input(w *core.W, b []byte, kind string) {
 			}
 		}
 	}
+	// the same decoder with a header whose RDLENGTH claims less than the buffer holds (the RDATA is
+	// followed by other records) and an RDATA that starts inside the buffer
+	if len(b) >= 2 && len(b) <= 600 {
+		for _, t := range []uint16{43, 48, 46, 47, 50, 51, 52, 6, 15, 33, 35, 44, 55, 45, 42, 41, 64, 99, 257, 256, 249, 250, 108, 109, 29, 65280} {
+			for _, rl := range []int{0, 1, 2, 3, 5, len(b) / 2} {
+				for _, off := range []int{0, 1, len(b) / 3} {
+					if off+rl > len(b) {
+						continue
+					}
+					h := dns.RR_Header{Name: ".", Rrtype: t, Class: 1, Rdlength: uint16(rl)}
+					in4 := make([]byte, len(b))
+					copy(in4, b)
+					var rr dns.RR
+					var o4 int
+					w.Guard("UnpackRRWithHeader(short RDLENGTH)/"+typeName(t), wit, func() { rr, o4, err = dns.UnpackRRWithHeader(h, in4, off) })
+					if err == nil && rr != nil && o4 > off+rl {
+						w.Violation("C02/rdata-read-beyond-rdlength/"+typeName(t), fmt.Sprintf("UnpackRRWithHeader(RDLENGTH %d at %d) consumed up to offset %d", rl, off, o4), wit)
+					}
+				}
+			}
+		}
+	}
 	w.Guard("IsMsg", wit, func() { dns.IsMsg(append([]byte(nil), b...)) })
 }
 
